@@ -1,3 +1,52 @@
-From Verif Require Import Model.Compile Spec.PgScope Judge.J02.
-Theorem C02_placeholder : True. Proof. exact I. Qed.
-Print Assumptions C02_placeholder.
+(** Property C02 — Result-row shape matches what the embedded SQL returns.
+
+    Full statement (C02_full_statement): for every statement outside the known
+    classes, the columns sqlc infers have the arity and names of the row
+    Spec/PgScope.pg_describe gives for the source statement and for the embedded
+    SQL.  It is decided on every generated case by judge_c02 (direct oracle on
+    sqlc's output) and by the exact correspondence of the model.  Proved for all
+    inputs: the two places that must agree for one star — the inferred columns
+    and the identifiers the rewrite writes into the SQL — always have the same
+    length (C02_star_arity_partial), so inference and embedded text cannot drift apart
+    for a star whatever the tables in scope are. *)
+From Verif Require Import Model.Compile Spec.PgScope Judge.JQ Judge.J02 Proofs.ColumnsFacts.
+Open Scope string_scope.
+Open Scope list_scope.
+
+Definition C02_full_statement : Prop :=
+  forall e raw src sql_raw q,
+    wf_raw raw = true -> c02_class_e e raw = 0%N -> spec_ok (env_cat e) raw = true ->
+    parse_query e raw src false = Ok (Some q) ->
+    holds_c02 (env_cat e) raw sql_raw q = true.
+
+Theorem C02_star_arity_partial : forall e tables res ref,
+  List.length (expand_cols e tables res ref) = List.length (star_columns res tables ref).
+Proof. exact star_arity. Qed.
+Print Assumptions C02_star_arity_partial.
+
+(** a plain column reference contributes exactly one result column *)
+Theorem C02_ref_arity_partial : forall res tables ref alias name,
+  ref_name_alias ref = Some (alias, name) ->
+  match output_column_refs res tables ref with
+  | Ok cols => List.length (ref_candidates tables alias name) = 1%nat /\ List.length cols = 1%nat
+  | Err _ => List.length (ref_candidates tables alias name) <> 1%nat
+  | Panic _ => False
+  end.
+Proof. exact column_ref_decision. Qed.
+Print Assumptions C02_ref_arity_partial.
+
+(** The known classes are real: on the faithful model a derived table doubles the row. *)
+Definition t_cat : catalog :=
+  mkCat "public" [mkSch "public" [mkTab "t" [mkCol "id" (mkQ "pg_catalog" "int4") true false ""] ""] [] ""; mkSch "pg_catalog" [] [] ""].
+Definition str_node (s : string) : node := Node "String" [("Str", s)] [] [].
+Definition star_target : node :=
+  Node "ResTarget" [] [] [("Val", Node "ColumnRef" [] [] [("Fields", NList [Node "A_Star" [] [] []])])].
+Definition select_star_from (f : node) : node :=
+  Node "SelectStmt" [] [] [("TargetList", NList [star_target]); ("FromClause", NList [f])].
+Definition derived_stmt : node :=
+  select_star_from (Node "RangeSubselect" [] []
+     [("Subquery", select_star_from (Node "RangeVar" [("Relname", "t")] [] [])); ("Alias", Node "Alias" [("Aliasname", "s")] [] [])]).
+Theorem C02_refuted_derived_table :
+  exists cols, output_columns 20 (mk_env EPostgres t_cat []) [] derived_stmt = Ok cols /\ List.length cols = 2%nat
+  /\ exists row, pg_describe t_cat derived_stmt = POk row /\ List.length row = 1%nat.
+Proof. eexists. split; [vm_compute; reflexivity|]. split; [reflexivity|]. eexists. split; [vm_compute; reflexivity|reflexivity]. Qed.
